@@ -12,6 +12,15 @@ profile  a small fitted XYFit (model linear in its parameters, y-uncertainties o
          min cost + sigma_i^2 and the outside probability, and the profiled interval itself (first / last abscissa and the cost
          there) with the interval the specification describes: sigma(cl) for a central level, sigma(2 cl - 1) on the open side of
          a one-sided one, the given bounds, +- sigma; the public ContoursProfiler.get_profile has to span the same interval.
+pplot    the PLOTTING entry point of the same product: ContoursProfiler.plot_profile(parameter, low / high / sigma / cl) for every
+         interval specification x profile_subtract_min x parameter on both backends.  What was drawn is read back from the
+         matplotlib figure (the profile line, the pairs of arrows and the percentage written next to each of them) and judged with
+         the same closed forms as the arrow specifications of `profile`; the drawn line must contain the interval the
+         specification describes and the interval get_profile returns for the same request (and be that interval when nothing
+         is marked).
+cplot    plot_contours for every parameter pair x naming convention and plot_profiles_contours_matrix (lower triangle / full
+         matrix) on the iminuit backend: the filled polygons are compared with the exact ellipse at each sigma, the legend labels
+         with sigma resp. 100 (1 - exp(-sigma^2/2)) %, the profiles on the diagonal with get_profile without arguments.
 contour  ContoursProfiler.get_contours on the iminuit backend for every parameter pair and a list of sigma values; the `cl`
          keyword that reaches iminuit.Minuit.mncontour is observed by a spy wrapper installed from outside (no hook in kafe2),
          and the returned contour points are compared with the exact ellipse of the linear problem.
@@ -22,6 +31,7 @@ scontour the same on the scipy backend for every contour algorithm that contour_
          a spy wrapper that then abandons the computation - and compares its cost rise with sigma^2.
 """
 import math
+import re
 import warnings
 
 import numpy as np
@@ -32,7 +42,7 @@ PROPERTY = "C16"
 RULE = (
     "cases = (dimension n, grid point) for the conversions (sigma grid 0.01..8.00 step 0.01; 2000 CL values uniform in logit "
     "space between logit -30 and +30), (backend, model, parameter, interval specification, subtract_min, arrows) for the arrow "
-    "specifications and the profiled interval of profile(), (backend, contour algorithm, model, parameter pair, sigma) for the contour level; every case is executed on the real "
+    "specifications and the profiled interval of profile(), (backend, model, parameter, interval specification, profile_subtract_min) for what plot_profile draws, (model, pair, naming convention | matrix layout) for what plot_contours / plot_profiles_contours_matrix draw, (backend, contour algorithm, model, parameter pair, sigma) for the contour level; every case is executed on the real "
     "classes; non-trivial = the reference value is strictly inside (0, 1) and differs from its grid neighbours / the arrow "
     "list is non-empty or an end of the profiled interval is determined / mncontour was reached / a level line or start point was obtained"
 )
@@ -46,6 +56,8 @@ ASSUMPTIONS = [
     "with subtract_min=True the iminuit backend subtracts the smallest value of the scan (iminuit's mnprofile semantics), not the cost at the optimum: the cost at the two ends of a profile is then judged through their difference only",
     "x_margin of an arrow specification is a plotting aid and not compared",
     "profile() is reached as fit._fitter.profile(...), the call ContoursProfiler makes: no public accessor returns the arrow specifications",
+    "drawn figures are read through matplotlib's artists: the line labelled 'profile ...', FancyArrowPatch end points (matplotlib keeps them in _posA_posB), the texts of the form '$<number>\\%$' (two decimals, so the outside probability is compared within 5.1e-5), Polygon vertices of filled contours, legend labels; tick labels, the parabolic approximation and the text that repeats the parameter value are layout and not compared",
+    "contour plots are read on the iminuit backend only (a scipy grid contour costs 5 s; its level is covered by the scontour family)",
 ]
 
 # ----------------------------------------------------------------------------------------------------------------------
@@ -689,8 +701,8 @@ def run_profile_case(backend, model, v, par, sm, arrows, spec):
     return out
 
 
-def judge_profile(spec, sm, arrows, o):
-    """-> list of (observable, expected, actual, mode)"""
+def judge_profile(spec, sm, arrows, o, cl_tol=None):
+    """-> list of (observable, expected, actual, mode); cl_tol: resolution of the outside probability when it was read from a figure"""
     if "exc" in o:
         return [("profile", "no exception", o["exc"], "exception:" + o["exc"].split(":")[0])]
     exp = expected_arrows(spec, arrows)
@@ -708,7 +720,7 @@ def judge_profile(spec, sm, arrows, o):
             y_exp = base + s_ref**2
             if not abs(g["y"] - y_exp) <= TOL_ARROW_CONV * max(1.0, s_ref**2, abs(o["min_cost"])):
                 bad.append(("arrow.y:" + tag, y_exp, g["y"], "wrong-value"))
-            if not abs(g["cl"] - outside) <= TOL_ARROW_CL:
+            if not abs(g["cl"] - outside) <= (TOL_ARROW_CL if cl_tol is None else cl_tol):
                 bad.append(("arrow.cl:" + tag, outside, g["cl"], "wrong-value"))
             x_exp = o["ref_center"] + sign * s_ref * o["ref_err"]
             if not abs(g["x"] - x_exp) <= TOL_ARROW_X * o["ref_err"]:
@@ -726,7 +738,7 @@ def judge_profile(spec, sm, arrows, o):
             rise_rep = g["y"] + offset - o["min_cost"]
             if rise_rep > 0 and abs(g["y"] - y_exp) <= TOL_ARROW_COST * max(1.0, rise):
                 outside = 0.5 * math.erfc(math.sqrt(0.5 * rise_rep))
-                if not abs(g["cl"] - outside) <= 1e-9:
+                if not abs(g["cl"] - outside) <= (1e-9 if cl_tol is None else cl_tol):
                     bad.append(("arrow.cl:" + tag, outside, g["cl"], "wrong-value"))
     bad.extend(judge_range(spec, sm, arrows, o))
     return bad
@@ -806,6 +818,304 @@ def run_profile(res, backend, model, v, par, sm, arrows_list, chunk, nchunk, tie
             for obs_name, exp, act, mode in bad:
                 res.violation(sig, hist, obs_name.split(":")[0], exp, act, mode, extra=dict(detail=obs_name))
     res.sample(dict(kind="profile", backend=backend, model=model, valuation=v, parameter=par, subtract_min=sm, spec=list(specs[-1])))
+
+
+# ----------------------------------------------------------------------------------------------------------------------
+# the plotting entry points of ContoursProfiler: what plot_profile / plot_contours / plot_profiles_contours_matrix draw for a
+# request is read back from the matplotlib artists and judged like the numbers that profile() / get_contours() return
+
+TOL_PLOT_CL = 5.1e-5  # the outside probability is written next to its arrow in percent with two decimals ('#.2g' below 0.1 %)
+TOL_PLOT_LABEL = 5.1e-4  # legend label of a contour: '%g' of sigma resp. '%.4g' of 100 cl, relative
+PLOT_POINTS = 5
+_PCT = re.compile(r"\$([0-9.eE+-]+)\\%\$")
+_LABEL_SIGMA = re.compile(r"([0-9.eE+-]+)\$\\sigma\$ contour")
+_LABEL_CL = re.compile(r"\$([0-9.eE+-]+)\\%\$ CL contour")
+
+
+def _plt():
+    import matplotlib
+
+    if "matplotlib.pyplot" not in __import__("sys").modules:
+        matplotlib.use("Agg")
+    import matplotlib.pyplot as plt
+
+    return plt
+
+
+def _read_profile_axes(axes):
+    """-> dict(xs, ys, arrows=[dict(side, x, y, cl)]) read from the artists of one profile plot.
+    Every marker consists of a vertical arrow (x, y) -> (x, 0), a horizontal arrow (x, y) -> outwards and the text '$<percent>\\%$'."""
+    import matplotlib.patches as mpatches
+
+    lines = [ln for ln in axes.lines if str(ln.get_label()).startswith("profile")]
+    if len(lines) != 1:
+        raise ValueError("%d lines labelled 'profile ...'" % len(lines))
+    xs = [float(t) for t in np.asarray(lines[0].get_xdata(), dtype=float)]
+    ys = [float(t) for t in np.asarray(lines[0].get_ydata(), dtype=float)]
+    vert, horiz = [], []
+    for q in axes.patches:
+        if isinstance(q, mpatches.FancyArrowPatch):
+            (xa, ya), (xb, yb) = [(float(a), float(b)) for a, b in q._posA_posB]
+            (vert if xa == xb else horiz).append((xa, ya, xb, yb))
+    pcts = [float(m.group(1)) for t in axes.texts for m in [_PCT.fullmatch(t.get_text())] if m]
+    if not (len(vert) == len(horiz) == len(pcts)):
+        raise ValueError("%d vertical arrows, %d horizontal arrows, %d percentages" % (len(vert), len(horiz), len(pcts)))
+    arrows = []
+    for (xa, ya, _xb, _yb), (xh, yh, xt, yt), pc in zip(vert, horiz, pcts):
+        if (xa, ya) != (xh, yh) or yt != yh:
+            raise ValueError("the two arrows of a marker do not start at the same point: %r, %r" % ((xa, ya), (xh, yh)))
+        arrows.append(dict(side="left" if xt < xh else "right", x=xa, y=ya, cl=pc / 100.0))
+    return dict(xs=xs, ys=ys, arrows=arrows)
+
+
+def run_pplot_case(backend, model, v, par, sm, spec):
+    """Build, fit, ContoursProfiler(fit, profile_subtract_min=sm).plot_profile(par, **specification); read the figure."""
+    from kafe2 import ContoursProfiler
+
+    plt = _plt()
+    fit, p = build_fit(model, v, backend)
+    i = p["names"].index(par)
+    ref_center, ref_err = float(p["phat"][i]), float(np.sqrt(p["cov"][i, i]))
+    out = dict(ref_center=ref_center, ref_err=ref_err)
+    with warnings.catch_warnings():
+        warnings.simplefilter("ignore")
+        out["min_cost"] = float(fit.cost_function_value)
+        out["center"] = float(fit.parameter_values[i])
+        out["err"] = float(fit.parameter_errors[i])
+        kw = spec_kwargs(spec, out["center"], ref_err)
+        cp = ContoursProfiler(fit, profile_points=PLOT_POINTS, profile_subtract_min=sm)
+        fig = None
+        try:
+            fig = cp.plot_profile(par, **kw)
+            try:
+                out.update(_read_profile_axes(fig.axes[0]))
+            except ValueError as e:
+                out["layout"] = str(e)
+        except Exception as e:  # noqa: BLE001
+            out["exc"] = type(e).__name__ + ": " + str(e)[:120]
+        finally:
+            plt.close("all")
+        if "xs" not in out:
+            return out
+        # the numeric profile for the same request from the same profiler (iminuit; scipy: when no root has to be searched)
+        if backend == "iminuit" or spec_parts(spec)["cls"] is None:
+            try:
+                gp = cp.get_profile(par, **kw)
+                out["gp_xs"] = [float(t) for t in gp[0]]
+                out["gp_ys"] = [float(t) for t in gp[1]]
+            except Exception as e:  # noqa: BLE001
+                out["gp_exc"] = type(e).__name__ + ": " + str(e)[:120]
+    return out
+
+
+def judge_pplot(spec, sm, o):
+    """-> list of (observable, expected, actual, mode).  The drawn markers are the arrow specifications of arrows=True, the
+    drawn line contains the interval of the specification, every marker and the interval get_profile returns."""
+    if "exc" in o:
+        return [("plot_profile", "no exception", o["exc"], "exception:" + o["exc"].split(":")[0])]
+    if "layout" in o:
+        return [("plot_profile.artists", "one profile line, per marker two arrows and one percentage", o["layout"], "wrong-value")]
+    bad = [("plot_profile." + n, e, a, m) for n, e, a, m in judge_profile(spec, sm, True, o, cl_tol=TOL_PLOT_CL)]
+    xs = o["xs"]
+    if len(xs) != PLOT_POINTS:
+        bad.append(("plot_profile.points", PLOT_POINTS, len(xs), "wrong-value"))
+    if "gp_exc" in o:
+        bad.append(("get_profile", "no exception", o["gp_exc"], "exception:" + o["gp_exc"].split(":")[0]))
+    elif "gp_xs" in o:
+        g = o["gp_xs"]
+        tol = (TOL_ARROW_X if spec_parts(spec)["cls"] is not None else 1e-7) * o["ref_err"]
+        if not expected_arrows(spec, True):
+            # nothing to mark, no margin: the drawn profile is the numeric one
+            if not (len(g) == len(xs) and np.allclose(g, xs, rtol=0, atol=tol)):
+                bad.append(("plot_profile.range=get_profile", [g[0], g[-1]], [xs[0], xs[-1]], "wrong-value"))
+            elif not np.allclose(o["gp_ys"], o["ys"], rtol=0, atol=TOL_RANGE_COST * max(1.0, max(o["ys"]) - min(o["ys"]))):
+                bad.append(("plot_profile.cost=get_profile", o["gp_ys"], o["ys"], "wrong-value"))
+        elif not (xs[0] <= g[0] + tol and xs[-1] >= g[-1] - tol):
+            bad.append(("plot_profile.range>=get_profile", [g[0], g[-1]], [xs[0], xs[-1]], "wrong-value"))
+    return bad
+
+
+def run_pplot(res, backend, model, v, par, sm, chunk, nchunk, tier):
+    specs = SPECS_QUICK + (SPECS_MORE if tier == "thorough" else [])
+    specs = specs[chunk::nchunk]
+    for spec in specs:
+        o = run_pplot_case(backend, model, v, par, sm, spec)
+        res.executions += 1
+        res.transitions += 4 + (1 if "gp_xs" in o else 0)
+        key = ("pplot", backend, model, v, par, sm, repr(spec))
+        res.state(key)
+        bad = judge_pplot(spec, sm, o)
+        n_arr = len(o.get("arrows") or [])
+        res.evaluations += max(1, 3 * n_arr) + (4 if "xs" in o else 0) + (1 if "gp_xs" in o else 0)
+        if "xs" in o:
+            res.nontriv(key)
+            res.facts["plot-profile:%s" % backend] += 1
+            res.facts["plot-profile-spec:%s" % spec[0]] += 1
+            res.facts["plot-profile-markers-compared"] += n_arr
+            if not n_arr:
+                res.facts["plot-profile-without-markers"] += 1
+            if "gp_xs" in o:
+                res.facts["plot-profile-vs-get_profile"] += 1
+        res.observe((key, [(a["side"], round(a["y"], 6), round(a["cl"], 6)) for a in (o.get("arrows") or [])], [round(t, 6) for t in o.get("xs", [])[:: max(1, len(o.get("xs", [])) - 1)]], o.get("exc"), o.get("layout")))
+        res.outcomes[("pplot", backend, spec[0], "sm=%d" % sm, "MISMATCH" if bad else "ok")] += 1
+        hist = dict(kind="pplot", backend=backend, model=model, v=v, par=par, subtract_min=sm, spec=list(spec))
+        sig = "plot_profile|%s|%s|%s|subtract_min=%s" % (backend, model, _spec_sig(spec), sm)
+        for obs_name, exp, act, mode in bad:
+            res.violation(sig, hist, obs_name.split(":")[0], exp, act, mode, extra=dict(detail=obs_name))
+    res.sample(dict(kind="pplot", backend=backend, model=model, valuation=v, parameter=par, subtract_min=sm, spec=list(specs[-1])))
+
+
+# ---- contour plots (iminuit)
+
+CPLOT_SIGMAS = (0.5, 1.0, 2.0, 3.0)
+
+
+def _read_contour_axes(axes):
+    """-> list of (label, 2 x N vertices) of the filled polygons in drawing order"""
+    import matplotlib.patches as mpatches
+
+    return [(str(q.get_label()), np.asarray(q.get_xy(), dtype=float).T) for q in axes.patches if type(q) is mpatches.Polygon]
+
+
+def _axes_cells(fig):
+    out = {}
+    for ax in fig.axes:
+        if not ax.get_visible():
+            continue
+        ss = ax.get_subplotspec()
+        out[(int(ss.rowspan.start), int(ss.colspan.start))] = ax
+    return out
+
+
+def _contour_levels(p, pair, polys, sigmas, naming):
+    ids = [p["names"].index(pair[0]), p["names"].index(pair[1])]
+    cinv = np.linalg.inv(p["cov"][np.ix_(ids, ids)])
+    levels = []
+    for k, (label, pts) in enumerate(polys):
+        lev = dict(label=label, n_points=int(pts.shape[1]))
+        m = (_LABEL_CL if naming == "cl" else _LABEL_SIGMA).fullmatch(label)
+        lev["label_value"] = float(m.group(1)) if m else None
+        if k < len(sigmas):
+            d = pts - p["phat"][ids][:, None]
+            lev["geom"] = float(np.mean(np.einsum("in,ij,jn->n", d, cinv, d))) / sigmas[k] ** 2
+        levels.append(lev)
+    return levels
+
+
+def run_cplot_case(model, v, case):
+    """case = ('contours', pair, naming) | ('matrix', full_matrix, naming); iminuit backend.
+    -> dict(cells={(row, col) as 'r,c': dict(pair, levels) | dict(par, xs, gp_xs, markers)})"""
+    from kafe2 import ContoursProfiler
+
+    plt = _plt()
+    fit, p = build_fit(model, v, "iminuit")
+    sigmas = list(CPLOT_SIGMAS)
+    out = dict(cells={})
+    with warnings.catch_warnings():
+        warnings.simplefilter("ignore")
+        cp = ContoursProfiler(fit, profile_points=PLOT_POINTS, contour_sigma_values=tuple(sigmas))
+        try:
+            if case[0] == "contours":
+                _kind, pair, naming = case
+                fig = cp.plot_contours(pair[0], pair[1], naming_convention=naming)
+                out["cells"]["0,0"] = dict(pair=list(pair), levels=_contour_levels(p, pair, _read_contour_axes(fig.axes[0]), sigmas, naming))
+            else:
+                _kind, full, naming = case
+                names = p["names"]
+                fig = cp.plot_profiles_contours_matrix(full_matrix=full, contour_naming_convention=naming)
+                cells = _axes_cells(fig)
+                out["n_cells"] = len(cells)
+                for (r, c), ax in sorted(cells.items()):
+                    if r == c:
+                        try:
+                            cell = dict(par=names[r], **_read_profile_axes(ax))
+                        except ValueError as e:
+                            cell = dict(par=names[r], layout=str(e))
+                        gp = cp.get_profile(names[r])
+                        cell["gp_xs"], cell["gp_ys"] = [float(t) for t in gp[0]], [float(t) for t in gp[1]]
+                    else:
+                        pair = (names[c], names[r])  # x axis: the parameter of the column
+                        cell = dict(pair=list(pair), levels=_contour_levels(p, pair, _read_contour_axes(ax), sigmas, naming))
+                    out["cells"]["%d,%d" % (r, c)] = cell
+        except Exception as e:  # noqa: BLE001
+            out["exc"] = type(e).__name__ + ": " + str(e)[:120]
+        finally:
+            plt.close("all")
+    return out
+
+
+def judge_cplot(model, case, o):
+    if "exc" in o:
+        return [("plot", "no exception", o["exc"], "exception:" + o["exc"].split(":")[0])]
+    bad = []
+    sigmas = list(CPLOT_SIGMAS)
+    naming = case[2]
+    npar = len(MODELS[model][1])
+    if case[0] == "matrix":
+        exp_cells = npar * npar if case[1] else npar * (npar + 1) // 2
+        if o["n_cells"] != exp_cells:
+            bad.append(("matrix.cells", exp_cells, o["n_cells"], "wrong-value"))
+    for name, cell in sorted(o["cells"].items()):
+        if "par" in cell:
+            if "layout" in cell:
+                bad.append(("matrix.profile.artists", "one profile line", cell["layout"], "wrong-value"))
+                continue
+            if cell["arrows"]:
+                bad.append(("matrix.profile.markers", [], [(a["side"], a["cl"]) for a in cell["arrows"]], "wrong-value"))
+            g, xs = cell["gp_xs"], cell["xs"]
+            if not (len(g) == len(xs) and np.allclose(g, xs, rtol=0, atol=1e-9 * (xs[-1] - xs[0]))):
+                bad.append(("matrix.profile.range=get_profile", [g[0], g[-1]], [xs[0], xs[-1]], "wrong-value"))
+            elif not np.allclose(cell["gp_ys"], cell["ys"], rtol=0, atol=TOL_RANGE_COST * max(1.0, max(cell["ys"]) - min(cell["ys"]))):
+                bad.append(("matrix.profile.cost=get_profile", cell["gp_ys"], cell["ys"], "wrong-value"))
+            continue
+        levels = cell["levels"]
+        if len(levels) != len(sigmas):
+            bad.append(("contour.count", len(sigmas), len(levels), "wrong-value"))
+        for s, lev in zip(sigmas, levels):
+            exp_label = 100.0 * -math.expm1(-0.5 * s * s) if naming == "cl" else s
+            if lev["label_value"] is None or not abs(lev["label_value"] - exp_label) <= TOL_PLOT_LABEL * exp_label:
+                bad.append(("contour.label", ("%.4g %% CL" % exp_label) if naming == "cl" else ("%g sigma" % s), lev["label"], "wrong-value"))
+            if not abs(lev["geom"] - 1.0) <= TOL_CONTOUR_GEOM:
+                bad.append(("contour.points", "mean rise = sigma^2 = %g" % (s * s), "mean rise = %g" % (lev["geom"] * s * s), "wrong-value"))
+    return bad
+
+
+def cplot_cases(model, what):
+    if what == "contours":
+        return [("contours", pair, naming) for pair in _pairs(model) for naming in ("sigma", "cl")]
+    return [("matrix", False, "sigma"), ("matrix", True, "cl")]
+
+
+def run_cplot(res, model, v, what):
+    for case in cplot_cases(model, what):
+        o = run_cplot_case(model, v, case)
+        res.executions += 1
+        res.transitions += 3 + len(o["cells"])
+        key = ("cplot", model, v, repr(case))
+        res.state(key)
+        bad = judge_cplot(model, case, o)
+        n_lev = 0
+        for name, cell in o["cells"].items():
+            res.state(key + (name,))
+            if "levels" in cell:
+                n_lev += len(cell["levels"])
+                res.facts["plot-contour-polygons"] += len(cell["levels"])
+                res.facts["plot-contour-labels:%s" % case[2]] += len(cell["levels"])
+            elif "xs" in cell:
+                res.facts["plot-matrix-profiles"] += 1
+        res.evaluations += 1 + 2 * n_lev + 3 * sum(1 for c in o["cells"].values() if "par" in c)
+        if n_lev:
+            res.nontriv(key)
+        res.observe((key, sorted((n, [(lev["label"], round(lev.get("geom", -1.0), 4)) for lev in c["levels"]] if "levels" in c else [round(t, 6) for t in c.get("xs", [])]) for n, c in o["cells"].items()), o.get("exc")))
+        res.outcomes[("cplot", model, case[0], case[2], "MISMATCH" if bad else "ok")] += 1
+        hist = dict(kind="cplot", model=model, v=v, case=[case[0], list(case[1]) if isinstance(case[1], tuple) else case[1], case[2]])
+        seen = set()
+        for obs_name, exp, act, mode in bad:
+            if obs_name in seen:
+                continue
+            seen.add(obs_name)
+            res.violation("plot_%s|iminuit|%s|%s" % (case[0], model, case[2]), hist, obs_name, exp, act, mode)
+    res.sample(dict(kind="cplot", model=model, valuation=v, what=what, sigmas=list(CPLOT_SIGMAS)))
 
 
 # ----------------------------------------------------------------------------------------------------------------------
